@@ -57,6 +57,11 @@ def run(ctx):
     rep.extra["primitive_effect_table"] = [list(p) for p in effects.PRIMITIVES]
     r2(ctx, esc)
     r3(ctx)
+    # AttributeError/TypeError are outside the escape model; the one place where a None reaches a parser is the
+    # Guardrails fallback of from_file, whose guard is C17.R2 - imported here as a necessary condition
+    from rules import c17
+
+    ctx.import_obligations("R4", c17.r2)
 
 
 def r2(ctx, esc):
